@@ -2,6 +2,7 @@ package sx
 
 import (
 	"crypto/sha1"
+	"fmt"
 	"go/types"
 	"path/filepath"
 	"strconv"
@@ -14,7 +15,14 @@ import (
 func (x *Exec) mustConcreteStr(v Value, what string) string {
 	s, ok := x.concreteStr(v.(*StrVal))
 	if !ok {
-		x.fail("%s: symbolic string not supported", what)
+		sv := v.(*StrVal)
+		msg := ""
+		for i, b := range sv.B {
+			if !b.IsConst() && len(msg) < 600 {
+				msg += fmt.Sprintf(" [%d]=%s", i, x.tb.Show(b))
+			}
+		}
+		x.fail("%s: symbolic string not supported: %s%s", what, x.showVal(v), msg)
 	}
 	return s
 }
